@@ -18,7 +18,7 @@ typedef struct {
 } tp_rec;
 
 #define TP_LOG_MAX (1u << 18)
-extern tp_rec tp_log_buf[TP_LOG_MAX];
+extern tp_rec *tp_log_buf;	/* the current epoch's buffer (see tp_common.c) */
 uint32_t tp_log_count(void);
 uint32_t tp_log_dropped(void);
 
